@@ -363,6 +363,14 @@ class C14(Prop):
         impl_spec = dict(rep["spec"] or {}, mask_unchanged=impl["mask_unchanged"], shape=impl.get("shape"))
         spec_ok = good and all(impl_spec.get(k) == v for k, v in spec.items())
         model_ok = good and core.canon({k: impl.get(k) for k in model}) == core.canon(model)
+        same_rng_use = impl["perm_arg"] == idx
+        if good and not same_rng_use:
+            # the implementation draws its randomness differently (e.g. permutation(k) of positions instead of the flat
+            # block indices): the recorded array cannot be interpreted by the model, so only the parts of the model
+            # that do not depend on it are compared; the specification relation (Lean, on the implementation's own
+            # output) is still demanded in full
+            keys = [k for k in model if k not in ("out", "perm_arg")]
+            model_ok = core.canon({k: impl.get(k) for k in keys}) == core.canon({k: model[k] for k in keys})
         impl["spec_verdicts"] = rep["spec"]
         feats = {"shuffle", f"ndim{len(shape)}", "mode:" + case["mode"], "partial:" + str(case["partial"]), "perm:" + case["perm"],
                  "maskdtype:" + ("float" if case["mask_float"] else "bool")} | set(case.get("gen", []))
@@ -373,6 +381,8 @@ class C14(Prop):
             feats.add("shape<block")
         if any(b == 1 for b in block):
             feats.add("block1")
+        if good and not same_rng_use:
+            feats.add("rng-used-differently(model output not compared)")
         moved = nidx is not None and nidx != idx
         if moved:
             feats.add("moved")
@@ -444,6 +454,12 @@ class C14(Prop):
             ok = abs(impl["r"] - r) <= tol and 0.0 <= impl["p"] <= 1.0 and abs(k - round(k)) < 1e-9
         spec_ok = ok
         model_ok = ok and sig_ok and same_idx and sure <= round(impl["p"] * n) <= sure + near
+        if ok and not same_idx:
+            # the implementation draws its randomness differently: the recorded permutations cannot be replayed by the
+            # model, so the count of shuffled r above r is not compared; r, the [0, 1] fraction of n and the untouched
+            # arguments (the specification) still are
+            model_ok = True
+            feats.add("rng-used-differently(model count not compared)")
         impl["n_perm_calls"] = len(rec.calls)
         impl["perm_args_equal_idx"] = same_idx
         if len(rep["idx"]) >= 2:
